@@ -576,6 +576,30 @@ let cmd_hist (a : sx list) : string =
        | _ -> "(bad-schema)")
   | _ -> failwith "hist: arguments"
 
+(* single-object encoding *)
+let schema_fp (sch : sx) : bytes option =
+  match CanonicalForm.fingerprint fuel_big (sx_schema_mut sch) with Ok f -> Some f | _ -> None
+let cmd_sos (a : sx list) : string =
+  match a with
+  | [sch; v] ->
+      (match frozen sch, schema_fp sch with
+       | Ok fs, Some fp -> show_res (fun b -> hex b ^ " " ^ hex fp) (SingleObject.so_encode fs fp false (sx_sval v))
+       | _ -> "(bad-schema)")
+  | _ -> failwith "sos: arguments"
+let cmd_sod (a : sx list) : string =
+  match a with
+  | [sch; tgt; data; mode] ->
+      let bytes = sx_bytes data in
+      let rs = (match head mode with
+                | ("slice", _) -> Reader.slice_reader bytes
+                | ("chunks", plan) -> Reader.chunked_reader bytes (L.map sx_n plan) (n_of_z (Z.of_int (512 * 1024 * 1024)))
+                | _ -> failwith "bad mode") in
+      (match frozen sch, schema_fp sch with
+       | Ok fs, Some fp ->
+           show_res (fun (d, _) -> show_dval d) (SingleObject.so_decode (nat_of_int 100000) fs De.cfg_default fp (sx_target tgt) rs)
+       | _ -> "(bad-schema)")
+  | _ -> failwith "sod: arguments"
+
 let run_case (line : string) : string =
   try
     match parse_many line with
@@ -592,6 +616,8 @@ let run_case (line : string) : string =
          | "fileparse" -> cmd_fileparse args
          | "parse" -> cmd_parse args
          | "hist" -> cmd_hist args
+         | "sos" -> cmd_sos args
+         | "sod" -> cmd_sod args
          | "freeze" -> cmd_freeze args
          | _ -> failwith ("unknown command " ^ cmd))
     | _ -> "(bad-case)"
